@@ -54,6 +54,14 @@ CHECKS = {
                      "element-wise with an independent McMurchie-Davidson reference at 1e-6 of the Schwarz scale; "
                      "whole-basis calls (2-4 shells, all type patterns) in both notations and transformed.",
                 technique="exhaustive enumeration of shell quartets and configurations against a reference model"),
+    "C14": dict(engine=E1, ref="5/C14",
+                text="Product of bases x type patterns x density classes x nuclei sets (both signs, 0.1..100) x "
+                     "transforms (none/orthogonal/general/rectangular), each observed at EVERY threshold bracketing "
+                     "each point-nucleus distance (0.99d, 1.01d), at 0 and beyond the largest, with points on a "
+                     "nucleus included; compared with nuclear-minus-electronic potential from the independent "
+                     "McMurchie-Davidson reference. Enumeration of all bracketing thresholds is what decides the "
+                     "'exactly when the distance is below the threshold' clause.",
+                technique="exhaustive enumeration of configurations and critical thresholds against a reference model"),
 }
 
 NOT_YET = {}
